@@ -339,6 +339,25 @@ P["C15"] = {"property": "C15", "level": "proof", "units": [
       expect=["contract_C15___deleter\\.postcondition\\.2"]),
 ]}
 
+# =============================== C16 =======================================
+JWKS_C = "libjwt/jwks.c"
+def c16_seq(name, mode, what, n, tier, timeout):
+    u = finite(name, what + " (libjwt/jwks.c, libjwt/ll.h): keyrings of <= %d items" % n,
+               JWKS_C, "harness/C16_seq.c", "h_C16_seq", n + 2, ["h_C16_seq\\.assertion\\.1", "unwind"],
+               stubs=["stubs/alloc.c", "stubs/ghost.c", "stubs/jansson.c"],
+               defines=["VERIF_ALLOC_NEVER_FAILS", "VJ_MODEL_FREE", "C16_N=%d" % n, "C16_MODE=%d" % mode], timeout=timeout)
+    u["kind"] = "bounded"; u["bound"] = "N<=%d items" % n; u["tier"] = tier
+    return u
+C16_MODES = [(1, "read", "jwks_item_get / jwks_item_count / jwks_find_bykid / jwks_error_any / jwks_item_add"),
+             (2, "free_twice", "jwks_item_free x2 / __item_free / list_del"),
+             (3, "free_bad", "jwks_item_free_bad x2 / __item_free"),
+             (4, "free_then_add", "jwks_item_free then jwks_item_add"),
+             (5, "free_all", "jwks_item_free_all / jwks_free")]
+P["C16"] = {"property": "C16", "level": "model_checking", "units":
+    [c16_seq("C16.bounded.%s_N%d" % (nm, {3: 1, 5: 1}.get(md, 3)), md, what, {3: 1, 5: 1}.get(md, 3), "quick", 1500) for md, nm, what in C16_MODES] +
+    [c16_seq("C16.bounded.free_all_N2", 5, C16_MODES[4][2], 2, "thorough", 7200),
+     c16_seq("C16.bounded.free_bad_N2", 3, C16_MODES[2][2], 2, "thorough", 7200)]}
+
 # ============================ parsing units =================================
 VERIFY_JSON_STUBS = LIBC + ["stubs/time.c", "stubs/jansson.c", "stubs/alloc.c"]
 def parse_units(prop, clauses_name):
